@@ -377,6 +377,20 @@ func (la *LockAnalysis) sectionOf(instr ssa.Instruction, f *types.Var) ssa.Instr
 		}
 	}
 	if best == nil {
+		// inside a transparent helper that runs under its caller's lock: the section of the call
+		if c := helperCall(fn); c != nil && la.At(instr)[f] != 0 {
+			hasRelease := false
+			for _, in := range instrsOf(fn) {
+				if c2, ok := in.(*ssa.Call); ok {
+					if g, acq, _, ok := lockOp(&c2.Call); ok && g == f && !acq {
+						hasRelease = true
+					}
+				}
+			}
+			if !hasRelease {
+				return la.sectionOf(c, f)
+			}
+		}
 		return nil
 	}
 	// no release of f between best and instr on any path: approximated by must-lockset at instr
